@@ -229,10 +229,12 @@ def g_mutation(m, ids):
     return '(%s %s)' % (op, n('k'))
 
 
-def mut_class(m):
+def mut_class(m, sol=None):
     """structural class of a breach (site structure included where the checker treats sites differently)"""
     op = m['op']
     if op == 'MLoad':
+        if sol is not None and len(sol['tours'][m['k']]['stops']) == 1:
+            return 'load-misreported-single-stop-tour'
         return 'load-misreported'
     if op == 'MCapacity':
         return 'load-above-capacity'
@@ -441,6 +443,38 @@ def _prefix(msg):
     return re.split(r"[':0-9]", str(msg))[0].strip().replace(' ', '-')[:60] or 'error'
 
 
+def _reject_structure(c, msg):
+    """structural qualifier of a rejection of a VALID document, derived from the documents and the items the message names"""
+    prob, sol = c['problem'], c['solution']
+    jobs = {j['id']: j for j in prob['plan']['jobs']}
+    if msg.startswith('load mismatch'):
+        mt = re.search(r"in tour '([^']*)'", msg)
+        for t in sol['tours']:
+            if mt and t['vehicleId'] == mt.group(1) and any(_is_job(a) for a in t['stops'][0]['activities']):
+                return '/job-at-departure-stop'
+        return ''
+    if msg.startswith('cannot match activities to jobs'):
+        cats = set()
+        for item in msg.split(': ', 1)[1].split(', '):
+            jid, _, tag = item.partition(':')
+            job = jobs.get(jid)
+            if job is None:
+                cats.add('unknown-job')
+                continue
+            tasks = e2e.tasks_of(job)
+            tags = {pl.get('tag') for _, t in tasks for pl in t['places'] if pl.get('tag') is not None}
+            if len(tasks) >= 2 and len(tags) < len(tasks):
+                cats.add('multi-job-without-unique-tags')
+                continue
+            places = [pl for _, t in tasks for pl in t['places'] if tag == '<no tag>' or pl.get('tag') == tag]
+            if any(len(pl.get('times') or []) >= 2 for pl in places):
+                cats.add('multi-window-place')
+            else:
+                cats.add('other')
+        return '/' + '+'.join(sorted(cats))
+    return ''
+
+
 def _verdict(impl):
     if impl is None or 'panic' in impl:
         return 'panic'
@@ -469,9 +503,9 @@ def oracle_model(c, impl, model):
         if v == 'panic':
             return [{'class': 'checker-panics-on-valid', 'what': 'checker panicked on a valid solution: %s' % str(impl)[:300]}]
         errs = impl.get('errors') or [impl.get('error')]
-        return [{'class': 'checker-rejects-valid:' + _prefix(errs[0]),
-                 'what': 'valid_b = [] (evaluated in Coq) but the checker reports %s' % json.dumps(errs)[:600]}]
-    cls = mut_class(m)
+        return [{'class': 'checker-rejects-valid:' + _prefix(e) + _reject_structure(c, str(e)),
+                 'what': 'valid_b = [] (evaluated in Coq) but the checker reports %s' % json.dumps(e)[:600]} for e in errs]
+    cls = mut_class(m, base_of(c)[1])
     if v == 'reject' or v == 'unreadable':
         return []
     if v == 'panic':
@@ -497,7 +531,7 @@ def classify(c, impl):
     labs = ['kind=%s' % ('base' if m is None else 'breach'), 'checker=%s' % _verdict(impl),
             'tours=%d' % len(s.get('tours') or []), 'unassigned=%s' % ('0' if not s.get('unassigned') else '1+')]
     if m is not None:
-        labs.append('class=' + mut_class(m))
+        labs.append('class=' + mut_class(m, s))
     return labs
 
 
